@@ -163,6 +163,14 @@ def name_atom(term, hdr_size, full_size, lower=None, effects=None):
     return None
 
 
+def _signed_read_compare(term):
+    """is the read(2) result compared as the signed value it is (no cast to an unsigned type on the way)?"""
+    for x in psi.walk(term):
+        if x[0] == 't' and x[1] == 'cast' and len(x[2]) >= 3 and isinstance(x[2][-1], str) and x[2][-1].startswith('u') and 'read#' in fmt(x[2][0]):
+            return False
+    return 'read#' in fmt(term)
+
+
 def truth_of(op, val):
     if op == '!=' and set(val) == {0}:
         return True
@@ -211,6 +219,7 @@ class OpenModel:
         for p in self.paths:
             atoms = []
             unknown = []
+            signed_short = []
             lower = None
             for term, op, val, _ in p.conds:
                 t = truth_of(op, val)
@@ -226,6 +235,10 @@ class OpenModel:
                 if a is None or t is None:
                     unknown.append(psi.fmt_cond((term, op, val, None))[:100])
                     continue
+                if a[0].startswith('read<header') and t != a[1] and ('read<0', True) not in atoms and _signed_read_compare(term):
+                    # `ret < size` on the *signed* return value, taken before (or without) the `ret < 0` test: a failed read
+                    # (-1) is "short" too and leaves through this exit
+                    signed_short.append(psi.fmt_cond((term, op, val, None))[:100])
                 atoms.append((a[0], t == a[1]))      # (name, passed?)
             res = None
             if p.kind == 'return' and p.value[0] == 'agg':
@@ -233,6 +246,6 @@ class OpenModel:
             # pointer formation beyond the header
             adds = [ef for ef in p.effects if ef['kind'] == 'call' and ef['callee'].startswith('std::ptr::') and ef['callee'].endswith(common.PTR_ADVANCE)]
             self.fb = fb
-            self.rows.append({'path': p, 'atoms': atoms, 'unknown': unknown, 'result': res, 'adds': adds})
+            self.rows.append({'path': p, 'atoms': atoms, 'unknown': unknown, 'result': res, 'adds': adds, 'signed_short': signed_short})
         self.magic_compared = sorted(set(MAGIC_COMPARED))
         self.ok = True
